@@ -17,7 +17,7 @@ ToAct(pairs) == [k \in {p[1] : p \in Range(pairs)} |->
                     tomb |-> r.tomb, hc |-> r.hc]]
 ToS(st) == [next |-> st.next, amap |-> ToFn(st.amap), rob |-> ToFn(st.rob), act |-> ToAct(st.act)]
 
-IsCall(e) == e.a \in {"Send", "Exec", "Exec4", "CreateExternal", "Invoke"}
+IsCall(e) == e.a \in {"Send", "Exec", "Exec4", "CreateExternal", "Invoke", "Retire"}
 
 RobIds(s) == {s.rob[x] : x \in DOMAIN s.rob}
 SameModRob(a, b) ==
@@ -36,7 +36,7 @@ Explained(e) ==
        /\ r.ok = e.ok
        /\ SameModRob(r.S, S')
        /\ ResMatch(r.res, e.res)
-       /\ ((e.ok /\ e.a \in {"Exec", "Exec4", "CreateExternal"}) => r.rid = e.rid)
+       /\ ((e.ok /\ e.a \in {"Exec", "Exec4", "CreateExternal", "Retire"}) => r.rid = e.rid)
 
 \* every created address equals the harness' own RLP/Keccak computation from the observed inputs
 AddrFormula(e) == \A k \in 1..Len(e.res) : e.res[k].addrOK
